@@ -41,8 +41,15 @@ func applyStreamFaults(t *sim.Tape, data []byte, o *Outcome) ([]byte, error, str
 			o.stat("fault_truncate", 1)
 		case 1: // end with a transport error instead of EOF: a reset, or an expired read deadline (which stays expired)
 			endErr = syscall.ECONNRESET
-			if t.Draw(2, "enderr") == 1 {
+			switch t.Draw(4, "enderr") {
+			case 1:
 				endErr = &net.OpError{Op: "read", Net: "tcp", Err: os.ErrDeadlineExceeded}
+			case 2:
+				// an error list, as multi-error and validation libraries return them: a slice type, which can be
+				// compared with nothing and hashed not at all
+				endErr = errorList{errors.New("first"), syscall.ECONNRESET}
+			case 3:
+				endErr = fmt.Errorf("transport: %w", net.ErrClosed)
 			}
 			desc = append(desc, fmt.Sprintf("end=%v", endErr))
 			o.stat("fault_end_error", 1)
@@ -138,6 +145,11 @@ func declaresHuge(data []byte) bool {
 }
 
 // drain calls Next until end of stream or error and checks the totality invariant.
+// errorList is an error of slice type.
+type errorList []error
+
+func (l errorList) Error() string { return fmt.Sprintf("%d errors: %v", len(l), []error(l)) }
+
 func drainParser(r *scriptedReader, o *Outcome, desc string) (sig string, detail string) {
 	defer func() {
 		if p := recover(); p != nil {
@@ -376,7 +388,7 @@ func init() {
 	register(&Check{
 		ID: "C06", Bubble: false, Run: runC06,
 		Runs:   map[string]int{"quick": 300000, "thorough": 10000000},
-		Rule:   "a case is one (faulted stream, delivery schedule) pair: a valid generated stream with 1..3 transport/peer faults (truncate at any byte with EOF, ECONNRESET or a read deadline that has expired and stays expired, segment loss/duplication/reordering, byte corruption biased to structure, length/count replaced by a boundary integer, nesting amplification) delivered whole, byte-wise, in a seeded partition and whole together with the end-of-stream indication (n>0 with EOF/ECONNRESET); 1 stream in 16 carries no fault; inputs declaring lengths above 2^20 and an enumerated boundary table run one per subprocess under a 4 GiB address-space limit; distinct = distinct (stream, partition) hashes; non-trivial = at least one fault applied",
+		Rule:   "a case is one (faulted stream, delivery schedule) pair: a valid generated stream with 1..3 transport/peer faults (truncate at any byte with EOF, ECONNRESET, a read deadline that has expired and stays expired, an error value of slice type or a wrapped net.ErrClosed, segment loss/duplication/reordering, byte corruption biased to structure, length/count replaced by a boundary integer, nesting amplification) delivered whole, byte-wise, in a seeded partition and whole together with the end-of-stream indication (n>0 with EOF/ECONNRESET); 1 stream in 16 carries no fault; inputs declaring lengths above 2^20 and an enumerated boundary table run one per subprocess under a 4 GiB address-space limit; distinct = distinct (stream, partition) hashes; non-trivial = at least one fault applied",
 		Real:   []string{"redis/proto parser"},
 		Stub:   []string{"transport: scripted io.Reader applying stream faults", "process isolation: prlimit --as=4GiB subprocess for allocation bombs"},
 		Assume: []string{"a deployment with a 4 GiB address-space limit must survive any input of at most 1 MiB", "coverage-guided fuzzing is a different technique and is not done"},
